@@ -221,6 +221,7 @@ pub fn cut_unit(ctx: &Ctx, rng: &mut Rng, o: &mut Out) {
   let mut guard_total = 0usize;
   let mut oracle_cases = 0usize;
   let mut cli_cases = 0usize;
+  let mut cli_ws_cases = 0usize;
   for (si, src) in sources.iter().enumerate() {
     let grep = src.lang.ast_grep(&src.text);
     let root = grep.root();
@@ -243,6 +244,7 @@ pub fn cut_unit(ctx: &Ctx, rng: &mut Rng, o: &mut Out) {
       continue;
     }
     let mut cli_here = 0usize;
+    let mut cli_ws_here = 0usize;
     for k in 0..(if deep { 6 } else { per_src }) {
       let n = rng.pick(&nodes);
       // k % 4 == 0: no holes at all (self match)
@@ -345,8 +347,16 @@ pub fn cut_unit(ctx: &Ctx, rng: &mut Rng, o: &mut Out) {
       // CLI, its pattern pre-processing and its printer sit between the text and the matcher —
       // the cut node must be among the matches, every single hole bound to the bytes it replaced;
       // a few cases per source, every language
-      if !deep && !holes.is_empty() && cli_here < 2 && pat.match_node(n.clone()).is_some() {
-        cli_here += 1;
+      // (also cuts whose text begins or ends with white space — a comment token that keeps the blanks or
+      // the carriage return behind it: the command line must hand the pattern on as it was written)
+      let edge_ws = text.trim() != text;
+      if !deep && ((!holes.is_empty() && cli_here < 2) || (edge_ws && cli_ws_here < 3)) && pat.match_node(n.clone()).is_some() {
+        if edge_ws {
+          cli_ws_here += 1;
+          cli_ws_cases += 1;
+        } else {
+          cli_here += 1;
+        }
         cli_cases += 1;
         let exe = crate::units::procpool::sg_bin();
         let dir = tempfile::tempdir().expect("tempdir");
@@ -468,7 +478,7 @@ pub fn cut_unit(ctx: &Ctx, rng: &mut Rng, o: &mut Out) {
   }
   o.oracle("cut-matches-left-nested", true, json!({"cases": nested_cases}));
   comments_in_patterns(o);
-  o.oracle("cut-matches-done", true, json!({"cases": oracle_cases, "guard_pass": guard_pass, "guard_total": guard_total, "command_line_cases": cli_cases}));
+  o.oracle("cut-matches-done", true, json!({"cases": oracle_cases, "guard_pass": guard_pass, "guard_total": guard_total, "command_line_cases": cli_cases, "command_line_cases_with_white_space_at_an_edge": cli_ws_cases}));
 }
 
 /// "structurally identical code" for two occurrences of one meta-variable
